@@ -492,7 +492,9 @@ fn line_break_sets(cx: &mut Ctx) {
                     }
                 }
             });
-            let crlf = arms.iter().any(|(p, g, b)| p == "b'\\r'" && g.as_deref() == Some("bytes.get(i+1)==Some(&b'\\n')") && b == "continue");
+            // the CR of a CR LF pair starts no line: its arm does nothing (`continue` or an empty body; the match is the
+            // last statement of the loop body)
+            let crlf = arms.iter().any(|(p, g, b)| p == "b'\\r'" && g.as_deref() == Some("bytes.get(i+1)==Some(&b'\\n')") && (b == "continue" || b == "{}" || b == "()"));
             let brk = arms.iter().find(|(_, g, b)| g.is_none() && b.contains("line_starts.push("));
             let brk_set: Option<BTreeSet<String>> = brk.map(|(p, _, _)| p.split('|').map(|s| s.to_string()).collect());
             if crlf && brk_set.as_ref() == Some(&want) && arms.len() == 3 {
@@ -500,7 +502,7 @@ fn line_break_sets(cx: &mut Ctx) {
             } else {
                 cx.fail(rule, &format!("{}/line-index", rule), &li.loc(m), &format!("the line index starts a new line after {:?} (CR LF folded: {}); its siblings use exactly LF and CR", brk_set, crlf));
             }
-            if brk.map_or(false, |(_, _, b)| b.contains("line_starts.push(TextSize::from(iasu32)+TextSize::from(1));")) {
+            if brk.map_or(false, |(_, _, b)| b.contains("line_starts.push(TextSize::from(iasu32)+TextSize::from(1))") || b.contains("line_starts.push(TextSize::from(iasu32+1))") || b.contains("line_starts.push(TextSize::from((i+1)asu32))")) {
                 cx.ok(rule, "a line start is the byte after the line break");
             } else {
                 cx.fail(rule, &format!("{}/line-index/start", rule), &li.loc(m), "a line start is not `i + 1`");
